@@ -226,7 +226,7 @@ func groupOf(keys []string, md map[string][]string) string {
 	return b.String()
 }
 
-var tenantVals = [][]string{{"t0"}, {"t1"}, {"t2"}, nil, {"a", "b"}}
+var tenantVals = [][]string{{"t0"}, {"t1"}, {"t2"}, nil, {"a", "b"}, {"b", "a"}} // a value list in another order is another value
 var regionVals = [][]string{{"r0"}, {"r1"}, nil, {""}}
 
 func maxProducers() int {
